@@ -50,8 +50,13 @@ def gen_problem(rng, cid):
             terms.append(bin_("OP_MUL", v, un("OP_SQRT", v)))          # NaN gradient at 0
         elif k < 0.76:
             terms.append(un("OP_RECIP", v))                           # infinite residual at 0
-        elif k < 0.84:
+        elif k < 0.80:
             terms.append(un("OP_ABS", t))
+        elif k < 0.84:
+            # sensitive to the SIGN of a zero: atan2 across its branch cut (the variable itself, or an odd power of it,
+            # whose partial derivative vanishes at 0 so that a step leaves a zero of the other sign behind)
+            w = v if rng.random() < 0.5 else bin_("OP_MUL", bin_("OP_MUL", v, v), v)
+            terms.append(bin_("OP_ATAN2", w, const(-1.0)))
         elif k < 0.92:
             terms.append(bin_("OP_MUL", t, bin_("OP_ADD", x, const(1.0))))
         else:
@@ -66,10 +71,11 @@ def gen_problem(rng, cid):
         gas = rng.choice([0, 1, 2, 3, 10, 100, 2000])
         pos = [rng.choice([0.0, 1.0, -1.0, rng.uniform(-2, 2)]) for _ in range(3)]
         mask = [v for v in vs if rng.random() < 0.25]
-        init = [rng.choice([0.0, 0.0, 1.0, -1.0, rng.uniform(-3, 3)]) for _ in vs]
+        init = [rng.choice([0.0, 0.0, -0.0, 1.0, -1.0, rng.uniform(-3, 3)]) for _ in vs]
         p.q.append((p.ncmd + 1, gas, mask, init, used))
+        # "Z": the long-lived evaluator holds, for a variable given +-0, the zero of the other sign
         p.emit(f"solve {root} {gas} " + " ".join(f2h(v) for v in pos) + f" {len(mask)} " + " ".join(str(m) for m in mask)
-               + (" " if mask else "") + " ".join(f2h(v) for v in init))
+               + (" " if mask else "") + " ".join(f2h(v) for v in init) + (" Z" if rng.random() < 0.4 else ""))
     return p
 
 
